@@ -1079,6 +1079,176 @@ Proof.
   - apply deep_copy_equal_iff; assumption.
 Qed.
 
+(* ------------------------------------------------------------------ deep copy with a caller-supplied callback *)
+(* For EVERY oracle (answers 1 / 2 / -1 as any function of the call history, any set of
+   nodes carrying application userdata): whenever the deep copy succeeds, the copy is the
+   source tree, and the callback has been called exactly once per node.  For every oracle
+   that never fails the deep copy succeeds. *)
+Lemma thread_opt_spec {A B S} (f : Z -> A -> S -> option B * S) (g : A -> B) (m : S -> Z) (w : A -> Z) l :
+  Forall (fun x => forall i s y s', f i x s = (Some y, s') -> y = g x /\ m s' = m s + w x) l ->
+  forall i s l' s', thread_opt f i l s = (Some l', s') ->
+  l' = map g l /\ m s' = m s + fold_right (fun x n => w x + n) 0 l.
+Proof.
+  induction l as [|x t IH]; intros HF i s l' s'; cbn.
+  - intros E. inversion E; subst. split; [reflexivity|lia].
+  - inversion HF; subst. destruct (f i x s) as [[y|] s1] eqn:Ef; [|discriminate].
+    destruct (thread_opt f (i + 1) t s1) as [[t'|] s2] eqn:Et; [|discriminate].
+    intros E. inversion E; subst. destruct (H1 _ _ _ _ Ef) as [-> Hm1].
+    destruct (IH H2 _ _ _ _ Et) as [-> Hm2]. split; [reflexivity|lia].
+Qed.
+
+Lemma thread_opt_total {A B S} (f : Z -> A -> S -> option B * S) l :
+  Forall (fun x => forall i s, exists y s', f i x s = (Some y, s')) l ->
+  forall i s, exists l' s', thread_opt f i l s = (Some l', s').
+Proof.
+  induction l as [|x t IH]; intros HF i s; cbn; [eauto|].
+  inversion HF; subst. destruct (H1 i s) as (y & s1 & ->).
+  destruct (IH H2 (i + 1) s1) as (t' & s2 & ->). eauto.
+Qed.
+
+Lemma leaf_copy_same src : match src with JArr _ | JObj _ => False | _ => True end ->
+  copy_serializer_data src (shallow_copy src) = src.
+Proof. destruct src as [| | | |b [t|]| | |]; cbn; tauto || reflexivity. Qed.
+
+Lemma fold_append_id {A} (l : list A) : fold_left (fun dst x => dst ++ [x]) l [] = l.
+Proof. rewrite (fold_append (fun x => x)). cbn. apply map_id. Qed.
+
+Lemma fold_obj_add_id {A} (l : list (list byte * A)) : NoDup (keys l) ->
+  fold_left (fun dst kv => obj_add dst (fst kv) (snd kv)) l [] = l.
+Proof.
+  intros H. rewrite (fold_obj_add (fun x => x)); [|assumption|cbn; auto]. cbn.
+  apply map_id_in. intros [k v] _. reflexivity.
+Qed.
+
+Definition cb_spec_at (env : cb_env) (src : jv) : Prop :=
+  jv_wf src -> forall p k i d h c h', deep_copy_cb env src p k i d h = (Some c, h') ->
+  c = src /\ zlen h' = zlen h + node_count src.
+
+Lemma cb_leaf env src : match src with JNull | JArr _ | JObj _ => False | _ => True end -> cb_spec_at env src.
+Proof.
+  intros Hl W p k i d h c h'.
+  assert (L : copy_serializer_data src (shallow_copy src) = src) by (apply leaf_copy_same; destruct src; tauto).
+  assert (N : node_count src = 1) by (destruct src; tauto || reflexivity).
+  destruct src; try tauto; cbn [deep_copy_cb];
+    destruct (cb_answer env h _); try destruct (cb_tagged env h _);
+    intros E; inversion E; subst; cbn [zlen]; (split; [first [exact L | reflexivity] | lia]).
+Qed.
+
+Lemma deep_copy_cb_spec env src : cb_spec_at env src.
+Proof.
+  induction src as [|x|x|x|x tx|x|la IH|la IH] using jv_ind'; try (apply cb_leaf; exact I).
+  - intros W p k i d h c h'. cbn. intros E. inversion E; subst. split; [reflexivity|lia].
+  - intros W p k i d h c h'. cbn [deep_copy_cb].
+    set (call := mk_call (JArr la) p k i d).
+    destruct (thread_opt _ 0 la (call :: h)) as [[o|] h2] eqn:Et.
+    + assert (HT : fold_left (fun dst x => dst ++ [x]) o [] = la /\ zlen h2 = zlen h + node_count (JArr la)).
+      { apply (thread_opt_spec _ (fun x => x) (@zlen cb_call) node_count) in Et.
+        - destruct Et as [-> Hz]. rewrite fold_append_id, map_id. split; [reflexivity|]. cbn [zlen node_count] in *. lia.
+        - rewrite Forall_forall in IH. apply Forall_forall. intros x Hx i0 s y s' Ey.
+          apply (IH x Hx (wf_arr_in _ _ W Hx) _ _ _ _ _ _ _ Ey). }
+      destruct HT as [HT Hz]. rewrite HT.
+      destruct (cb_answer env h call); [destruct (cb_tagged env h call)| |]; intros E; inversion E; subst;
+        (split; [reflexivity|exact Hz]).
+    + destruct (cb_answer env h call); intros E; discriminate.
+  - intros W p k i d h c h'. cbn [deep_copy_cb].
+    set (call := mk_call (JObj la) p k i d).
+    destruct (thread_opt _ 0 la (call :: h)) as [[o|] h2] eqn:Et.
+    + assert (HT : fold_left (fun dst kv => obj_add dst (fst kv) (snd kv)) o [] = la /\ zlen h2 = zlen h + node_count (JObj la)).
+      { apply (thread_opt_spec _ (fun kv => kv) (@zlen cb_call) (fun kv => node_count (snd kv))) in Et.
+        - destruct Et as [-> Hz]. rewrite map_id, fold_obj_add_id by (exact (wf_obj_nodup _ W)).
+          split; [reflexivity|]. cbn [zlen node_count] in *. lia.
+        - rewrite Forall_forall in IH. apply Forall_forall. intros [kk v] Hx i0 s y s'. cbn [fst snd].
+          destruct (deep_copy_cb env v (Some (JObj la)) (Some kk) None (d + 1) s) as [[x'|] s1] eqn:Ey; [|discriminate].
+          intros E. inversion E; subst.
+          destruct (IH (kk, v) Hx (wf_obj_in _ _ _ W Hx) _ _ _ _ _ _ _ Ey) as [-> Hz]. split; [reflexivity|exact Hz]. }
+      destruct HT as [HT Hz]. rewrite HT.
+      destruct (cb_answer env h call); [destruct (cb_tagged env h call)| |]; intros E; inversion E; subst;
+        (split; [reflexivity|exact Hz]).
+    + destruct (cb_answer env h call); intros E; discriminate.
+Qed.
+
+(* whenever the copy succeeds it is the source: same kinds, values, int representation,
+   retained texts, member order -- whatever the callback answered along the way *)
+Theorem deep_copy_cb_same env src p k i d h c h' :
+  jv_wf src -> deep_copy_cb env src p k i d h = (Some c, h') -> c = src.
+Proof. intros W E. exact (proj1 (deep_copy_cb_spec env src W _ _ _ _ _ _ _ E)). Qed.
+
+(* ... and the callback has been called exactly once per node *)
+Theorem deep_copy_cb_calls env src p k i d h c h' :
+  jv_wf src -> deep_copy_cb env src p k i d h = (Some c, h') -> zlen h' = zlen h + node_count src.
+Proof. intros W E. exact (proj2 (deep_copy_cb_spec env src W _ _ _ _ _ _ _ E)). Qed.
+
+Theorem deep_copy_cb_equal env src p k i d h c h' :
+  jv_wf src -> deep_copy_cb env src p k i d h = (Some c, h') ->
+  jv_equal src c = nan_free src /\ jv_equal c src = nan_free src /\ denote c = denote src.
+Proof.
+  intros W E. rewrite (deep_copy_cb_same _ _ _ _ _ _ _ _ _ W E).
+  assert (X : jv_equal src src = nan_free src).
+  { rewrite <- (deep_copy_same _ W) at 2. apply deep_copy_equal_iff. exact W. }
+  auto.
+Qed.
+
+(* an oracle that never fails: never answers -1, and answers 2 wherever the source node
+   carries application userdata *)
+Definition cb_never_fails (env : cb_env) : Prop :=
+  (forall h c, cb_answer env h c <> CbError) /\
+  (forall h c, cb_tagged env h c = true -> cb_answer env h c = CbComplete).
+
+Lemma deep_copy_cb_total env : cb_never_fails env ->
+  forall src p k i d h, exists c h', deep_copy_cb env src p k i d h = (Some c, h').
+Proof.
+  intros [NF NT] src.
+  induction src as [|x|x|x|x tx|x|la IH|la IH] using jv_ind'; intros p k i d h;
+    try (cbn [deep_copy_cb]; match goal with |- context [cb_answer env h ?c] =>
+           pose proof (NF h c) as Hn; pose proof (NT h c) as Ht; destruct (cb_answer env h c); try congruence;
+           [destruct (cb_tagged env h c); [specialize (Ht eq_refl); discriminate|eauto]|eauto] end; fail).
+  - cbn. eauto.
+  - cbn [deep_copy_cb]. set (call := mk_call (JArr la) p k i d).
+    destruct (thread_opt_total (fun i0 x s => deep_copy_cb env x (Some (JArr la)) None (Some i0) (d + 1) s) la) with (i := 0) (s := call :: h) as (o & h2 & Et).
+    { eapply Forall_impl; [|exact IH]. intros x Hx i0 s. apply Hx. }
+    rewrite Et. pose proof (NF h call) as Hn. pose proof (NT h call) as Ht.
+    destruct (cb_answer env h call); try congruence; [|eauto].
+    destruct (cb_tagged env h call); [specialize (Ht eq_refl); discriminate|eauto].
+  - cbn [deep_copy_cb]. set (call := mk_call (JObj la) p k i d).
+    destruct (thread_opt_total (fun (_ : Z) kv s => match deep_copy_cb env (snd kv) (Some (JObj la)) (Some (fst kv)) None (d + 1) s with
+                                                    | (Some x', s') => (Some (fst kv, x'), s')
+                                                    | (None, s') => (None, s')
+                                                    end) la) with (i := 0) (s := call :: h) as (o & h2 & Et).
+    { eapply Forall_impl; [|exact IH]. intros [kk v] Hx i0 s. cbn [fst snd] in *.
+      destruct (Hx (Some (JObj la)) (Some kk) None (d + 1) s) as (c & s1 & ->). eauto. }
+    rewrite Et. pose proof (NF h call) as Hn. pose proof (NT h call) as Ht.
+    destruct (cb_answer env h call); try congruence; [|eauto].
+    destruct (cb_tagged env h call); [specialize (Ht eq_refl); discriminate|eauto].
+Qed.
+
+Theorem deep_copy_cb_never_fails env src : cb_never_fails env -> jv_wf src -> src <> JNull ->
+  exists h', deep_copy_cb_root env src = (Some src, h') /\ zlen h' = node_count src /\
+             jv_equal src src = nan_free src.
+Proof.
+  intros NF W NN.
+  assert (E : deep_copy_cb_root env src = deep_copy_cb env src None None None 0 []) by (destruct src; congruence || reflexivity).
+  destruct (deep_copy_cb_total env NF src None None None 0 []) as (c & h' & Ec).
+  pose proof (deep_copy_cb_same _ _ _ _ _ _ _ _ _ W Ec) as ->.
+  exists h'. rewrite E. split; [exact Ec|]. split.
+  - rewrite (deep_copy_cb_calls _ _ _ _ _ _ _ _ _ W Ec). reflexivity.
+  - rewrite <- (deep_copy_same _ W) at 2. apply deep_copy_equal_iff. exact W.
+Qed.
+
+(* the NULL-callback case is the instance "always 1, no application userdata" *)
+Theorem deep_copy_cb_default src : jv_wf src -> src <> JNull ->
+  fst (deep_copy_cb_root cb_default src) = deep_copy_root src.
+Proof.
+  intros W NN. destruct (deep_copy_cb_never_fails cb_default src) as (h' & E & _); auto.
+  - split; cbn; [discriminate|discriminate].
+  - rewrite E. cbn. rewrite deep_copy_root_spec by assumption. destruct src; congruence.
+Qed.
+
+(* the first failing answer aborts the copy: no further call is made *)
+Theorem deep_copy_cb_error env src p k i d h :
+  src <> JNull -> cb_answer env h (mk_call src p k i d) = CbError ->
+  deep_copy_cb env src p k i d h = (None, mk_call src p k i d :: h).
+Proof. intros NN E. destruct src; try congruence; cbn [deep_copy_cb]; rewrite E; reflexivity. Qed.
+
 (* ------------------------------------------------------------------ witnesses (non-vacuity) *)
 Definition ex_nan : Z := 9221120237041090560.          (* 0x7ff8000000000000 *)
 Definition ex_a : jv :=
@@ -1165,3 +1335,27 @@ Example ex_history :
      [true; true; true; true; true; true; true; false]) /\
   jv_equal (fst (run_history h ex_a)) ex_b = true.
 Proof. vm_compute. split; reflexivity. Qed.
+
+(* callbacks: answer 2 for containers and on every second call, tag-carrying nodes answered 2;
+   and one that fails at the fourth call *)
+Definition ex_env : cb_env :=
+  mk_env (fun h c => match c_src c with
+                     | JArr _ | JObj _ => CbComplete
+                     | _ => if Z.even (zlen h) then CbComplete else CbCreated
+                     end)
+         (fun h c => match c_src c with JObj _ => true | _ => false end).
+Definition ex_env_fail : cb_env :=
+  mk_env (fun h c => if zlen h =? 3 then CbError else CbCreated) (fun _ _ => false).
+
+Example ex_cb :
+  cb_never_fails ex_env /\
+  (exists h, deep_copy_cb_root ex_env ex_a = (Some ex_a, h) /\ zlen h = 6) /\
+  (exists h, deep_copy_cb_root ex_env_fail ex_a = (None, h) /\ zlen h = 4) /\
+  fst (deep_copy_cb_root (mk_env (fun _ _ => CbCreated) (fun _ c => match c_src c with JArr _ => true | _ => false end)) ex_a) = None.
+Proof.
+  split; [|split; [|split]].
+  - split; intros h c; cbn; destruct (c_src c); try destruct (Z.even (zlen h)); congruence.
+  - eexists. split; [vm_compute; reflexivity|reflexivity].
+  - eexists. split; [vm_compute; reflexivity|reflexivity].
+  - vm_compute. reflexivity.
+Qed.
